@@ -80,6 +80,8 @@ var c05Compilers = []c05Compiler{
 	{"path_eval", func(s string) (*xpath.Machine, error) { return path_eval.NewPathEvalMachine(s, c04Pfx, "mod:1") }},
 	{"leafref", func(s string) (*xpath.Machine, error) { return leafref.NewLeafrefMachine(s, c04Pfx) }},
 	{"expr-nil-map", func(s string) (*xpath.Machine, error) { return expr.NewExprMachine(s, nil) }},
+	{"leafref-nil-map", func(s string) (*xpath.Machine, error) { return leafref.NewLeafrefMachine(s, nil) }},
+	{"path_eval-nil-map", func(s string) (*xpath.Machine, error) { return path_eval.NewPathEvalMachine(s, nil, "mod:1") }},
 }
 
 // errorTextOK: the text quotes the expression and contains "<left> [X] <right>" with left+right == expr.
@@ -122,6 +124,18 @@ func c05Compile(s string, res *core.CaseResult) {
 		}
 		if (m == nil) == (err == nil) {
 			res.Fail("C05/compile-returns-neither-or-both", in, fmt.Sprintf("machine nil=%v, err=%v", m == nil, err))
+			continue
+		}
+		// the same text once more: what a compilation returns does not depend on earlier compilations
+		var m2 *xpath.Machine
+		var err2 error
+		if pan2, msg2, _ := core.Guard(func() { m2, err2 = c.fn(s) }); pan2 {
+			res.Fail("C05/compile-panic/second-compilation", in, "panic: "+msg2)
+			continue
+		}
+		res.Ev("texts_compiled_a_second_time", 1)
+		if (err == nil) != (err2 == nil) || (m2 == nil) == (err2 == nil) || (err != nil && err.Error() != err2.Error()) {
+			res.Fail("C05/second-compilation-of-the-same-text-differs/"+c.name, in, fmt.Sprintf("first: machine nil=%v err=%v\nsecond: machine nil=%v err=%v", m == nil, err, m2 == nil, err2))
 			continue
 		}
 		if err != nil {
